@@ -1284,7 +1284,27 @@ class CSemantics:
         The common type is a type they can both be cast to.
         """
 
-        return max([typ1, typ2], key=lambda t: self._get_rank(t, location))
+        common = max([typ1, typ2], key=lambda t: self._get_rank(t, location))
+        other = typ2 if common is typ1 else typ1
+        if (
+            types.is_signed_integer(common)
+            and types.is_integer(other)
+            and not types.is_signed_integer(other)
+            and self.context.sizeof(common) <= self.context.sizeof(other)
+        ):
+            # The signed type cannot represent all values of the unsigned
+            # type, so both are converted to the unsigned type
+            # corresponding to the signed type (C99 6.3.1.8).
+            common = types.BasicType(self.unsigned_versions[common.type_id])
+        return common
+
+    unsigned_versions = {
+        types.BasicType.CHAR: types.BasicType.UCHAR,
+        types.BasicType.SHORT: types.BasicType.USHORT,
+        types.BasicType.INT: types.BasicType.UINT,
+        types.BasicType.LONG: types.BasicType.ULONG,
+        types.BasicType.LONGLONG: types.BasicType.ULONGLONG,
+    }
 
     basic_ranks = {
         types.BasicType.LONGDOUBLE: 110,
